@@ -23,6 +23,7 @@ sys.path.insert(0, HERE)
 sys.path.insert(0, os.path.join(VERIF, 'contracts'))
 import verusrun  # noqa: E402
 import propmap  # noqa: E402
+import claims  # noqa: E402
 
 REPO = os.environ.get('VERIF_REPO', '/repo')
 RETRY_SEEDS = [11, 23, 37]
@@ -151,7 +152,8 @@ def main():
     spec = propmap.PROPS[prop]
     t0 = time.time()
     workroot = tempfile.mkdtemp(prefix='verif_%s_' % prop, dir=os.environ.get('VERIF_SCRATCH', '/var/tmp'))
-    ev = {'property_id': prop, 'tier': a.tier, 'seed': seed, 'level': 'proof', 'coverage': {}, 'assumptions': [], 'wall_s': 0.0, 'violations': 0}
+    level = claims.CLAIMS.get(prop, {}).get('category', 'proof')
+    ev = {'property_id': prop, 'tier': a.tier, 'seed': seed, 'level': level, 'coverage': {}, 'assumptions': [], 'wall_s': 0.0, 'violations': 0}
     exit_code = 0
     violations = []
     undecided_all = {}
@@ -278,7 +280,11 @@ def main():
         cov = {'obligations': obligations, 'discharged': discharged,
                'checker_cmd': '; '.join(x for x in [ev.get('verus', {}).get('cmd'), (ev.get('kani') or {}).get('cmd')] if x) or 'none',
                'trusted_base': sorted(set(trusted)), 'samples': samples[:8], 'per_obligation': per_obl, 'bounded': bounded,
-               'undecided': sorted(undecided_all), 'known_findings': known_lines}
+               'undecided': sorted(undecided_all), 'known_findings': known_lines,
+               'not_reached': claims.NOT_REACHED.get(prop, []),
+               # generic counts (every obligation incl. bounded ones that was run / that was discharged)
+               'evaluations': len(per_obl), 'distinct_nontrivial': len([o for o in per_obl if o['status'] == 'discharged']),
+               'rule': 'one evaluation = one named obligation (extracted function, lemma, law or Kani harness) run on this tree; counted when discharged'}
         if res is not None:
             cov['extraction'] = {'items_total': len(res.items),
                                  'under_contract': len([i for i in res.items if i.get('mode') == 'verified' and i['kind'] in ('fn', 'const')]),
